@@ -47,12 +47,16 @@ def _cases(draw):
     if P(0.4) and g.names:
         refd = g.pick(g.names)
         s["instance_name"] = "concat(${%s}, '%s')" % (refd, uniq("in"))
+        if P(0.2):
+            s["instance_name"] = s["instance_name"].replace(", ", g.pick([",\n", ",\t", ",\r\n"]))     # an expression laid out over several lines
         if "name" not in s and P(0.25):
             s["name"] = refd      # a question may be called like the form; ${name} still means the question
     if P(0.4):
         s["submission_url"] = f"https://example.com/{uniq('sub')}?a=1&b=2"
     if P(0.3):
         s["public_key"] = uniq("MIIBIjANBg")
+        if P(0.25):
+            s["public_key"] += g.pick(["\n", "\r\n", "\t"]) + uniq("kq8A")      # a key pasted as wrapped base64
     if P(0.3):
         s["auto_send"] = g.pick(["true", "false"])
     if P(0.3):
@@ -61,7 +65,7 @@ def _cases(draw):
         s["style"] = g.pick(["pages", "theme-grid", "pages theme-grid"]) + " " + uniq("cls")
     if P(0.4):
         pre = g.pick(["esri", "aa", "x1"])
-        s["namespaces"] = f'{pre}="http://example.org/{uniq("ns")}{g.pick(["", "", "?v=1", ";a=b=c"])}"' + (f' bb="http://b.example/{uniq("ns")}"' if P() else "")
+        s["namespaces"] = f'{pre}="http://example.org/{uniq("ns")}{g.pick(["", "", "?v=1", ";a=b=c", "#", "#v1"])}"' + (f' bb="http://b.example/{uniq("ns")}"' if P() else "")
         if P(0.7):
             s[f"attribute::{pre}:thing"] = uniq("attrval")
     if P(0.3):
@@ -182,7 +186,7 @@ def run(case):
                 path = os.path.join(d, case["stem"] + ".csv")
                 with open(path, "w", encoding="utf-8", newline="") as f:
                     f.write(render.csv_of_sheets(sheets, cols=cols))
-            elif use_md(form):
+            elif use_md(form) and case.get("force_route") != "xlsx":
                 path = os.path.join(d, case["stem"] + _suffix(case, ".md"))
                 with open(path, "w", encoding="utf-8") as f:
                     f.write(with_separators(render.to_md(form), case.get("md_separator"), only=case.get("md_separator_only")))
@@ -224,6 +228,23 @@ def evaluate(case) -> Outcome:
             out.checked("C11.root-name")
             if r2 is not None and r2[0] == "ok":
                 out.fail("C11.root-name", "name-of-a-question", f"rejected only because the form is called like its question {nm!r}: {res}")
+        # every settings value this generator writes is a documented, valid one: a form that converts without its settings sheet
+        # must convert with it
+        if case["form"].get("settings"):
+            bare = model.clone(case)
+            kept = {k: v for k, v in bare["form"]["settings"].items() if k in ("default_language",)}
+            bare["form"]["settings"] = kept
+            for k in ("alias", "blank_form_id_col"):
+                bare.pop(k, None)
+            if "stem" in case and "csv_spacer" not in case and not use_md(run_form_of(case)):
+                bare["force_route"] = "xlsx"      # (the same container as the original)
+            if not kept:
+                del bare["form"]["settings"]
+                bare["form"].pop("settings_blank_rows", None)
+            r3 = run(bare)
+            out.checked("C11.settings-accepted")
+            if r3 is not None and r3[0] == "ok":
+                out.fail("C11.settings-accepted", common.err_class(res)[:50], f"converts without its settings sheet, refused with it: {res}; settings {case['form']['settings']}")
         return out
     out.label("outcome:accepted")
     try:
